@@ -53,7 +53,7 @@ m = {
     ],
     "checks": checks,
     "not_applicable": na,
-    "notes": "Family: static analysis only. Every check rebuilds the fact base from /repo's current working tree with the rustc_private driver and decides rule instances on the MIR; nothing executes flac-codec code. quick = all rule instances on the default-feature MIR; thorough = the same on the `--features rayon` MIR as well, plus a sensitivity self-test that re-applies the 201 confirmed seeded changes under /verif/seeded to a scratch copy and requires each to be reported. Genuine defects found on the pinned tree were repaired with 28 fix: commits in /repo (listed as fixed: in /verif/known_findings.txt); one finding is left open on purpose and listed there as known: (KF29, C11: an all-zero MD5 cannot round-trip), for which check C11 prints a KNOWN-FINDING line and exits 0. See DESIGN.md section 9 for what was built, what each check decides and what it does not.",
+    "notes": "Family: static analysis only. Every check rebuilds the fact base from /repo's current working tree with the rustc_private driver and decides rule instances on the MIR; nothing executes flac-codec code. quick = all rule instances on the default-feature MIR; thorough = the same on the `--features rayon` MIR as well, plus a sensitivity self-test that re-applies the 241 confirmed seeded changes under /verif/seeded to a scratch copy and requires each to be reported. Genuine defects found on the pinned tree were repaired with 28 fix: commits in /repo (listed as fixed: in /verif/known_findings.txt); one finding is left open on purpose and listed there as known: (KF29, C11: an all-zero MD5 cannot round-trip), for which check C11 prints a KNOWN-FINDING line and exits 0. See DESIGN.md section 9 for what was built, what each check decides and what it does not.",
 }
 json.dump(m, open(os.path.join(HERE, "MANIFEST.json"), "w"), indent=1)
 print("checks:", [c["property_id"] for c in checks]); print("not applicable:", [n["property_id"] for n in na])
